@@ -5,25 +5,26 @@ Property theorems only.  They speak about the executable models `DSymVerif.D3.*`
 correspondence of every run) and about the GENERATED tables `DSymVerif.Tables.*` (re-extracted
 from the source on every run, so a changed table re-checks or breaks these lemmas).
 
-Proved (DESIGN §6 C15):
-* ✔ table lemmas: eleven distinct point-group names; every name `core_type` can return (and the
-  two literals "z6", "d6" of `construct_candidates`) is one of them — also as a theorem about the
-  model functions for all tables; `core_type_by_size` panics exactly outside 1,2,3,6,8,12,24 and
-  size 4 is handled before it; the names carry the orders of the crystallographic rotation
-  groups, consistent with the size table, and the set of orders is {1,2,3,4,6,8,12,24};
-* ○ `transitive_le4_orders`: every transitive permutation group on k ≤ 4 points has one of these
-  orders (orbit–stabiliser + Lagrange, for ALL subgroups of S_k, not only 2-generated ones) — so
-  the `panic!()` arm is not reachable through the order of such a group;
-* ✔ `degree_spec`: on a permutation action `degree` terminates within `len` rounds (the Rust
-  iterator chain has no bound) and returns the least k ≥ 1 with 0·w^k = 0; `flattens_all` is
-  the conjunction of the degree tests;
-* ○ (partial) `ptc_result_is_cover_partial`: whatever table is chosen, a returned cover is
-  `cover_for_table` of the oriented cover and of a candidate table whose stabiliser abelianises
-  (in the model) to [0,0,0]; with C05's hypotheses on table and edge words it is a covering.
+Proved (DESIGN §6 C15 and phase 2; `FuelOK` = the node budget of the `coset_tables` model
+exhausts the search tree, the hypothesis of C12's theorems, is the only assumption beyond a valid
+input symbol):
+* ✔ table lemmas over the generated constants (§1) and ○ `transitive_le4_orders` (§2);
+* ✔ `degree_spec`, `flattensAll_true_iff` (§3);
+* §4 `candidates_valid`, `degree_on_valid_tables`, `core_type_total`: every table of the
+  pipeline is a valid transitive permutation representation (C11/C12/C13), `degree` means what
+  `degree_spec` says on it, the `panic!()` arm of `core_type_by_size` is unreachable;
+* §5 ○ `ptc_result_is_cover` (covering of the oriented cover and of the input),
+  `ptc_result_is_oriented`, ○ **`flattens_branchfree`** and `ptc_result_is_branchfree`: a returned
+  cover has branching number 1 on every adjacent 2-orbit, is a valid symbol, complete, has the
+  degrees of its projection for all index pairs, and is connected if the oriented cover is;
+* §6 `ptc_selected_subgroup_is_Z3_abelianised`, `ptc_selected_subgroup_of_orbifold_group`: the
+  stabiliser of row 0 in the textbook orbifold group of the oriented cover has index = sheet
+  number and is isomorphic to the presentation `stabilizer` returns, whose `abelian_invariants`
+  model value is [0,0,0] (= the determinantal-divisor invariants under C14's no-overflow bound).
 
 Not theorems (Spec clauses on every explored case, `open_obligations` in conf/C15.json):
-`flattens_branchfree_statement`, existence for every euclidean symbol, Z^n abelianisation,
-numbering independence.
+π₁(cov) ≅ that stabiliser (covering-space correspondence), hence H₁(cov) = Z³; existence for
+every euclidean symbol; numbering independence.
 -/
 import DSymVerif.Proofs.Delaney3d
 import DSymVerif.Proofs.Delaney3dOrders
@@ -31,6 +32,7 @@ import DSymVerif.Proofs.Delaney3dSelect
 import DSymVerif.Proofs.Delaney3dOriented
 import DSymVerif.Proofs.Delaney3dHolonomy
 import DSymVerif.Proofs.Delaney3dBranch
+import DSymVerif.Proofs.Delaney3dReindex
 import DSymVerif.Props.C05
 import DSymVerif.Props.C09
 import DSymVerif.Props.C11
@@ -580,6 +582,48 @@ theorem ptc_selected_subgroup_is_Z3_abelianised (s cov : DSymData) (hs : ValidTa
       exact (Outcome.ok.inj this).symm
   · cases hinv
   · cases hinv
+
+/-- **ptc_selected_subgroup_of_orbifold_group** — (4) stated about the orbifold group itself.
+    Let `TGroup oc` be the textbook orbifold fundamental group of the oriented cover (C09: one
+    generator per chamber facet; pairing, spanning-tree and 2-orbit relators), which the value of
+    `fundamental_group(oc)` presents (C09 `presents_orbifold_group`; the ℕ-indexed presentation of
+    C09 and the `Fin n`-indexed one of C11/C13 are identified by `upHom` / `downHom`,
+    Proofs/Delaney3dReindex.lean).  Whenever the model returns `Some(cov)`: `TGroup oc` acts on
+    the rows of the selected table `t` by the monodromy representation `rhoT` (C05), transitively;
+    the stabiliser `K ≤ TGroup oc` of row 0 has index `rows(t)` — the sheet number of `cov` over
+    `oc` —; and the presentation `⟨gens | srels⟩` returned by the model of `stabilizer`, whose
+    `abelian_invariants` model value is `[0, 0, 0]`, maps **isomorphically onto `K`**. -/
+theorem ptc_selected_subgroup_of_orbifold_group (s cov : DSymData) (hs : ValidSym s) (hsz : 1 ≤ s.size)
+    (hF : ∀ oc fg, orientedCover s = .ok oc → FG.fundamentalGroup oc = .ok fg → FuelOK fg)
+    (h : pseudoToroidalCover s = .ok (some cov)) :
+    ∃ (oc : DSymData) (fg : FG.FundGroup) (t : Tab) (hsoc : ValidSym oc) (hdim : 1 ≤ oc.dim)
+      (hfg : FG.fundamentalGroup oc = .ok fg) (hV : CosetP.Valid t fg.nrGenerators fg.relators [])
+      (gens srels : List (List Int)),
+      orientedCover s = .ok oc ∧ cov.size = t.size * oc.size ∧
+      Stab.stabilizer 0 fg.relators (Cosets.Table.ofView fg.nrGenerators t) = .ok (gens, srels) ∧
+      Inv.abelianInvariants gens.length srels = .ok [0, 0, 0] ∧
+      ((MulAction.stabilizer (Equiv.Perm (Fin t.size)) (⟨0, hV.pos⟩ : Fin t.size)).comap
+        (CoversP.rhoT hsoc hdim hfg hV)).index = t.size ∧
+      ∃ fT : PresentedGroup (CosetP.relSet gens.length srels) →* FGP.TGroup oc,
+        Function.Injective fT ∧
+        fT.range = (MulAction.stabilizer (Equiv.Perm (Fin t.size)) (⟨0, hV.pos⟩ : Fin t.size)).comap
+          (CoversP.rhoT hsoc hdim hfg hV) := by
+  obtain ⟨oc, fg, t, hvt, gens, srels, hoc, hfg, _, hsize, hst, hinv, hidx, ⟨f, hinj, hrange⟩, _⟩ :=
+    ptc_selected_subgroup_is_Z3_abelianised s cov hs.toValidTables hsz hF h
+  obtain ⟨⟨_, _, _, _, _, _, dim3, _, hoc2, _⟩⟩ := ptc_run s cov h
+  have hdims : 1 ≤ s.dim := by rw [dim3]; decide
+  have hsoc := orientedCover_validSym hs hsz hdims hoc
+  obtain ⟨oc', hoc', _, hocdim, _⟩ := C05.oriented_cover_oriented s hs.toValidTables hsz hdims
+  have hocd : 1 ≤ oc.dim := by
+    have : oc = oc' := by
+      have := hoc
+      rw [hoc'] at this
+      exact (Outcome.ok.inj this).symm
+    rw [this, hocdim]; exact hdims
+  have hV : CosetP.Valid t fg.nrGenerators fg.relators [] := CosetP.valid_of_validTable hvt
+  have hlet := (FGP.fundamentalGroup_letters oc fg hfg).1
+  obtain ⟨h1, fT, h2, h3⟩ := transfer_stabiliser hlet hV (FGP.presIso hsoc hocd hfg) f hinj hrange hidx
+  exact ⟨oc, fg, t, hsoc, hocd, hfg, hV, gens, srels, hoc, hsize, hst, hinv, h1, fT, h2, h3⟩
 
 /-! ### 7. the two conclusions as predicates (used by Props/C17) -/
 
